@@ -65,7 +65,7 @@ fn workload(sc: &mut Scenario, rng: &mut Rng, which: usize, unack: bool) {
 
 fn build(ctx: &Ctx, tier: Tier, seed: u64) -> Vec<Job<'static>> {
     let (cfgs, pairs, n_rand) = match tier {
-        Tier::Quick => (28, false, 6_000),
+        Tier::Quick => (56, false, 40_000),
         Tier::Thorough => (140, true, 300_000),
     };
     let root = ctx.root(997);
